@@ -61,7 +61,7 @@ class Ctx:
         self.njobs = 0
         self.names = set()
         self.plain_tags = {}   # collection -> predicate tags violated in panic-free control runs (C18 attribution)
-        self.pool = ThreadPoolExecutor(max_workers=6)
+        self.pool = ThreadPoolExecutor(max_workers=10)
 
     def quick(self):
         return self.tier != "thorough"
@@ -464,6 +464,53 @@ def key_ind_jobs(ctx, maxn, shards, limit=None, export=0, max_events=600000):
             for i, pf in enumerate(files)]
 
 
+# ---- threshold sweeps ("scale" drivers): sizes and coincidences far outside the exhaustive universes ----
+SCALE_PAIRS_Q = ["15:26", "38:48", "71:80", "130:140"]
+SCALE_PAIRS_T = SCALE_PAIRS_Q + ["7:20", "23:60", "31:34", "47:100", "63:66", "127:131", "200:260", "300:0"]
+
+
+def one_per_kind(colls):
+    seen, out = set(), []
+    for c in colls:
+        if kind_of(c) not in seen:
+            seen.add(kind_of(c))
+            out.append(c)
+    return out
+
+
+def ord_scale_jobs(ctx, colls, deep=0, faults=0, flags=()):
+    """fill to a threshold (trees: until the arena is exactly full), clear, refill past the old size, delete a third;
+    lists take the whole plan in one job (no snapshots, cheap), trees one job per pair"""
+    q = ctx.quick()
+    pairs = SCALE_PAIRS_Q if q else SCALE_PAIRS_T
+    futs = []
+    for coll in (one_per_kind(colls) if q else colls):
+        if kind_of(coll) in ("maplist", "setlist"):
+            futs.append(ctx.submit(f"scale-{coll}", coll, "scale", {"plan": ",".join(pairs + ["300:400"]), "seed": ctx.seed, "faults": faults}, flags=flags))
+        else:
+            for i, pr in enumerate(pairs):
+                futs.append(ctx.submit(f"scale-{coll}-{pr.replace(':', '_')}", coll, "scale",
+                                       {"plan": pr, "seed": ctx.seed + i, "faults": faults}, flags=flags))
+        if deep:
+            futs.append(ctx.submit(f"deep-{coll}", coll, "scale", {"plan": "", "deep": deep, "seed": ctx.seed}, flags=flags, timeout=600))
+    return futs
+
+
+def key_scale_jobs(ctx, colls, rounds="ABC", deep=0, flags=()):
+    futs = []
+    for coll in colls:
+        for r in rounds:
+            if r == "D" and not deep:
+                continue
+            futs.append(ctx.submit(f"scale-{coll}-{r}", coll, "scale", {"rounds": r, "deep": deep, "seed": ctx.seed}, flags=flags, timeout=600))
+    return futs
+
+
+SCALE_RULE = ("; threshold sweeps on the real code, validated by TLC like every other trace: fills to the sizes at which arenas grow and "
+              "fast paths switch (trees: until the arena is exactly full), clear, refill past the old size, removals; expiring "
+              "collections: mass expiry around long-lived survivors, drain churn, and bulk runs (thousands of insertions observed as "
+              "one call, the reference advancing by the bulk action of the layer-0 module)")
+
 ASSUME_COMMON = [
     "TLC decides the property on the layer-1 model within the stated constants; the code is tied to the specification by the validated traces only",
     "the harness build (opt-level 2, debug assertions, overflow checks, std unsafe-precondition checks) behaves like the release build except that out-of-contract indexing aborts instead of being silent",
@@ -493,12 +540,13 @@ def plan_key_semantics(ctx):
     futs += random_jobs(ctx, ["keytree"], 1 if q else 3, {"keys": 60, "tspan": 40, "steps": 1500 if q else 8000, "seglen": 500, "clears": 0}, tag="-chain")
     # one step of every kind from every valid tree x every pattern of expired / live nodes
     futs += key_ind_jobs(ctx, 4 if q else 6, 2 if q else 6, limit=120 if q else 3000)
+    futs += key_scale_jobs(ctx, colls, "ABCD", deep=20000 if q else 60000)
     ctx.collect(futs)
     return ctx.finish(
         "model: every history over the key universe and time line (fixpoint, unbounded length); conformance: TLC-generated "
         "cover paths replayed on the real collection with every in-contract call of the alphabet fanned out from each covered "
         "state, plus seeded random histories; distinct_nontrivial counts distinct (canonical physical pre-state, call) pairs "
-        "executed on the real code" + IND_RULE,
+        "executed on the real code" + IND_RULE + SCALE_RULE,
         ASSUME_COMMON + [IND_ASSUME])
 
 
@@ -531,11 +579,12 @@ def plan_ord(ctx, colls):
         futs += ord_cover_jobs(ctx, colls, 4, [1, 9], 2, writes=True)
     futs += random_jobs(ctx, colls, 2 if q else 8, {"keys": 10, "steps": 2500 if q else 12000, "seglen": 90})
     futs += random_jobs(ctx, colls, 1 if q else 3, {"keys": 40, "steps": 1200 if q else 6000, "seglen": 400}, tag="-wide")
+    futs += ord_scale_jobs(ctx, colls, deep=300000)
     # one step of every kind from every valid red-black tree (not only the reachable ones of a small universe)
     futs += ord_ind_jobs(ctx, colls, 8 if q else 11, 2 if q else 4, limit=(200 // len(colls)) if q else 4000,
                          handles=1 if ctx.pid in ("C17", "C08") else 0)
     ctx.collect(futs)
-    return ctx.finish(COVER_RULE + IND_RULE, ASSUME_COMMON + [IND_ASSUME])
+    return ctx.finish(COVER_RULE + IND_RULE + SCALE_RULE, ASSUME_COMMON + [IND_ASSUME])
 
 
 def plan_c04(ctx):
@@ -590,6 +639,8 @@ def plan_structure(ctx):
     futs += ord_ind_jobs(ctx, ["maptree-i32", "settree-str"] if q else ["maptree-i32", "maptree-str", "settree-i32", "settree-str"],
                          8 if q else 11, 2 if q else 4, limit=100 if q else 4000)
     futs += key_ind_jobs(ctx, 4 if q else 6, 1 if q else 4, limit=60 if q else 2000)
+    futs += ord_scale_jobs(ctx, ["maptree-i32", "settree-str"] if q else ["maptree-i32", "maptree-str", "settree-i32", "settree-str"])
+    futs += key_scale_jobs(ctx, ["keytree"])
     trees = ["maptree-i32", "settree-str", "keytree"] if q else ["maptree-i32", "maptree-str", "settree-i32", "settree-str", "keytree"]
     for coll in trees:
         base = {"keys": 12, "steps": 2000 if q else 10000, "seglen": 150}
@@ -625,7 +676,7 @@ def plan_structure(ctx):
         cov.update({"key:" + k: v for k, v in operator_coverage("MCKey", ctx.cfg("cov-key", key_consts(3, 3), KEY_INV), ctx.path("meta-cov-key")).items()})
         ctx.notes.append({"operator_evaluations": {k: v for k, v in cov.items() if k.split(".")[-1] in want}})
     ctx.collect(futs)
-    return ctx.finish(COVER_RULE + IND_RULE + "; structure predicates (WellFormed / PoolOK / growth bound) are evaluated by TLC on the "
+    return ctx.finish(COVER_RULE + IND_RULE + SCALE_RULE + "; structure predicates (WellFormed / PoolOK / growth bound) are evaluated by TLC on the "
                       "snapshot of every logged state", ASSUME_COMMON + [IND_ASSUME])
 
 
@@ -640,6 +691,8 @@ def plan_lists(ctx):
     futs += key_cover_jobs(ctx, ["keylist"], 3, 3 if not q else 2, [0], 2 if q else 4, limit=100 if q else 300)
     futs += random_jobs(ctx, ORD_LISTS, 1 if q else 6, {"keys": 10, "steps": 2000 if q else 10000, "seglen": 90})
     futs += random_jobs(ctx, ["keylist"], 2 if q else 8, {"keys": 8, "tspan": 5, "steps": 2500 if q else 12000, "seglen": 70})
+    futs += ord_scale_jobs(ctx, ORD_LISTS, deep=200000)
+    futs += key_scale_jobs(ctx, ["keylist"], "ABCD", deep=20000 if q else 60000)
     ctx.collect(futs)
     return ctx.finish(COVER_RULE + "; the lists ship no snapshot: results are checked call by call and the full observable "
                       "contents (get_value of every key of the universe, is_empty) periodically", ASSUME_COMMON)
@@ -656,6 +709,7 @@ def plan_export(ctx):
     futs += random_jobs(ctx, ["keytree", "keylist"], 1 if q else 4, {"keys": 40, "tspan": 12, "steps": 2000 if q else 10000, "seglen": 120}, tag="-wide")
     # export from every valid tree x every pattern of expired / live nodes, at both times
     futs += key_ind_jobs(ctx, 4 if q else 6, 2 if q else 6, limit=120 if q else 3000, export=1)
+    futs += key_scale_jobs(ctx, ["keytree", "keylist"], "ABCD", deep=20000 if q else 60000)
     if ctx.pid == "C19":
         # the sorted list inserts in O(n) per call (descending order: O(n^2) in total), so its sizes stay
         # moderate; the quadratic cost is the list's nature, not something C19 or C10 speak about
